@@ -37,12 +37,16 @@ ObsLen(e)   == ~e.obs.raised /\ e.obs.len = NEq(sys, e.rp)
 ObsZero(e)  == IF expd.zero THEN e.obs.cls = "zero" ELSE e.obs.cls = "nonzero"
 ObsQ(e)     == e.obs.q = expd.q
 ObsTot(e)   == e.obs.keys = sys.ks /\ e.obs.totc = expd.totc /\ e.obs.tot0 = expd.tot0
-ResultOK(e) == ObsLen(e) /\ ObsZero(e) /\ ObsQ(e) /\ ObsTot(e)
+\* argument forms: stacked float states (c, ceq), dict arguments, and the un-reduced (A, ks) / own constants
+ObsForms(e) == /\ e.obs.qarr = <<expd.q, K>>
+               /\ e.obs.totd = <<expd.totc, expd.tot0>>
+               /\ e.obs.scA = sys.nu /\ e.obs.scK = K /\ e.obs.eqc = SystemK
+ResultOK(e) == ObsLen(e) /\ ObsZero(e) /\ ObsQ(e) /\ ObsTot(e) /\ ObsForms(e)
 
 TStep ==
     /\ verdict = "none" /\ pos <= Len(Traces[tid])
     /\ IF Ev.ev = "result"
-       THEN Residual(Ev.ns, Ev.re, Ev.rp) /\ ResultOK(Ev)
+       THEN Residual(Ev.ns, Ev.re, Ev.rp, Ev.opt) /\ ResultOK(Ev)
        ELSE Step(Ev)
     /\ verdict' = IF pos = Len(Traces[tid]) /\ Ev.ev = "result" THEN "accept" ELSE "none"
     /\ pos' = pos + 1 /\ UNCHANGED tid
@@ -62,7 +66,10 @@ Clause ==
       ELSE IF ~ObsLen(e) THEN "len"
       ELSE IF ~ObsZero(e) THEN (IF expd.zero THEN "zero-expected" ELSE "nonzero-expected")
       ELSE IF ~ObsQ(e) THEN "quotients"
-      ELSE "totals"
+      ELSE IF ~ObsTot(e) THEN "totals"
+      ELSE IF e.obs.qarr # <<expd.q, K>> THEN "quotients-2d"
+      ELSE IF e.obs.totd # <<expd.totc, expd.tot0>> THEN "totals-dict"
+      ELSE "stoichs-constants"
 
 Verdict == verdict # "none" =>
     PrintT(<<"VERDICT", tid, verdict, pos, IF verdict = "accept" THEN "" ELSE Clause>>)
